@@ -245,6 +245,33 @@ func c02RunCase(env *c02Env, mk func(*c02Ledger) keeper.Keeper, D int64, pays []
 		check(h, what)
 	}
 
+	// closeOp: a successful PaymentClose(x) closes exactly the payment it names; the others stay
+	// open unless the settlement inside overdrew the account
+	closeOp := func(h int64, x int) {
+		before := map[int]types.Payment_State{}
+		for i := range ps {
+			if ps[i].created >= 0 {
+				p, _ := k.GetPayment(ctx, aid, pid(i))
+				before[i] = p.State
+			}
+		}
+		var cerr error
+		op(h, fmt.Sprintf("close(p%d)", x), func(c sdk.Context) error { cerr = k.PaymentClose(c, aid, pid(x)); return cerr })
+		if cerr != nil {
+			return
+		}
+		acc, _ := k.GetAccount(ctx, aid)
+		for i, st := range before {
+			p, _ := k.GetPayment(ctx, aid, pid(i))
+			if i == x && p.State == types.PaymentOpen {
+				panic(c02Fail{fail("PaymentClose(p%d) at h+%d succeeded but the payment is still open", x, h-h0)})
+			}
+			if i != x && acc.State == types.AccountOpen && p.State != st {
+				panic(c02Fail{fail("PaymentClose(p%d) at h+%d changed the state of payment %d from %s to %s (account still open)", x, h-h0, i, st, p.State)})
+			}
+		}
+	}
+
 	si := 0
 	for dh := int64(0); dh <= 8; dh++ {
 		h := h0 + dh
@@ -269,7 +296,7 @@ func c02RunCase(env *c02Env, mk func(*c02Ledger) keeper.Keeper, D int64, pays []
 			case 0:
 				op(h, "withdraw(p0)", func(c sdk.Context) error { return k.PaymentWithdraw(c, aid, pid(0)) })
 			case 1:
-				op(h, "close(p0)", func(c sdk.Context) error { return k.PaymentClose(c, aid, pid(0)) })
+				closeOp(h, 0)
 			case 2:
 				op(h, "withdraw(pLast)", func(c sdk.Context) error { return k.PaymentWithdraw(c, aid, pid(last)) })
 			case 3:
@@ -283,7 +310,7 @@ func c02RunCase(env *c02Env, mk func(*c02Ledger) keeper.Keeper, D int64, pays []
 			case 4:
 				op(h, "closeAccount", func(c sdk.Context) error { return k.AccountClose(c, aid) })
 			case 5:
-				op(h, "close(pLast)", func(c sdk.Context) error { return k.PaymentClose(c, aid, pid(last)) })
+				closeOp(h, last)
 			}
 		}
 	}
